@@ -26,3 +26,32 @@ def parse_schema(s: M.Schema) -> Tuple[Optional[Any], str, Optional[str]]:
     if r.is_err():
         return None, text, f"Err: {r.err()!r}"
     return r.unwrap(), text, None
+
+
+def has_modules(s: M.Schema) -> bool:
+    return any(isinstance(d, M.Mod) for d in s.decls)
+
+
+def parse_schema_files(s: M.Schema, directory: str, root_name: str = "schema.fcp") -> Tuple[Optional[Any], str, Optional[str]]:
+    """Like parse_schema, but materialises module imports as real files below `directory` first."""
+    import os
+
+    from fcp.error import Logger
+    from fcp.parser import get_fcp
+
+    from . import modules as MO
+
+    files = MO.files_of(s, root_name)
+    for rel, text in files.items():
+        pth = os.path.join(directory, rel)
+        os.makedirs(os.path.dirname(pth), exist_ok=True)
+        with open(pth, "w") as f:
+            f.write(text)
+    root = os.path.join(directory, root_name)
+    try:
+        r = get_fcp(root, Logger({}))
+    except Exception as e:
+        return None, root, f"exception {type(e).__name__}: {e}"
+    if r.is_err():
+        return None, root, f"Err: {r.err()!r}"
+    return r.unwrap(), root, None
